@@ -183,6 +183,10 @@ func (hdr *Header) String() string {
 // why EOF on ubuntu with 22?
 // https://github.com/google/gopacket/blob/master/layers/tcp.go<Paste>
 func (hdr *Header) Unmarshal(data []byte) error {
+	if len(data) < 20 {
+		return fmt.Errorf("Incorrect TCP header size: %d", len(data))
+	}
+
 	hdr.Source = binary.BigEndian.Uint16(data[0:2])
 	hdr.Destination = binary.BigEndian.Uint16(data[2:4])
 	hdr.SeqNum = binary.BigEndian.Uint32(data[4:8])
